@@ -17,6 +17,7 @@ import (
 	lunarMessages "lunar/engine/messages"
 	"lunar/engine/runner"
 	"lunar/engine/services"
+	"lunar/engine/services/remedies"
 	"lunar/engine/utils"
 	sharedConfig "lunar/shared-model/config"
 	"lunar/toolkit-core/urltree"
@@ -102,7 +103,8 @@ func mkRemedy(r remedySpec, code int) sharedConfig.Remedy {
 		out.Config.Retry = &sharedConfig.RetryConfig{Attempts: 1, InitialCooldownSeconds: 1, CooldownMultiplier: 1,
 			Conditions: sharedConfig.RetryConfigConditions{StatusCode: []sharedConfig.Range[int]{{From: 100, To: 599}}}}
 	case sharedConfig.RemedyAuth:
-		out.Config.Authentication = &sharedConfig.AuthConfig{}
+		// every authentication remedy has its OWN account, whose api key is sent as header x-k-<remedy>: <remedy>
+		out.Config.Authentication = &sharedConfig.AuthConfig{Account: sharedConfig.AccountID("acct-" + r.name)}
 	default:
 		panic("harness: unknown remedy type tag")
 	}
@@ -156,18 +158,37 @@ type state struct {
 	codes        map[int]string // fixed-response status code -> remedy name
 	nextCode     int
 	onlyFix      bool // every declared remedy so far is a fixed-response or retry one (precondition of `disp`)
+	authOK       bool // ... or an authentication one, at most one per remedies list (precondition of `auth`)
+	accounts     map[sharedConfig.AccountID]sharedConfig.Account
+	viaProd      bool // the tree in force was loaded through the production accessor (L4)
+	authInit     bool // this case got its own AuthPlugin (its credential cache lives as long as the plugin)
 }
 
 func (st *state) remedies(specs []remedySpec) []sharedConfig.Remedy {
 	var out []sharedConfig.Remedy
+	nAuth := 0
+	for _, r := range specs {
+		if r.typ == int(sharedConfig.RemedyAuth) {
+			nAuth++
+		}
+	}
+	if nAuth > 1 {
+		st.authOK = false
+	}
 	for _, r := range specs {
 		code := 0
 		if r.typ == int(sharedConfig.RemedyFixedResponse) {
 			code = st.nextCode
 			st.nextCode++
 			st.codes[code] = r.name
+		} else if r.typ == int(sharedConfig.RemedyAuth) {
+			st.onlyFix = false
+			st.accounts[sharedConfig.AccountID("acct-"+r.name)] = sharedConfig.Account{
+				Authentication: sharedConfig.Authentication{APIKey: &sharedConfig.APIKey{
+					Tokens: []sharedConfig.Header{{Name: "x-k-" + r.name, Value: r.name}}}}}
 		} else if r.typ != int(sharedConfig.RemedyRetry) {
 			st.onlyFix = false
+			st.authOK = false
 		}
 		out = append(out, mkRemedy(r, code))
 	}
@@ -199,7 +220,8 @@ func ensureServices() {
 
 func exec(c proto.Case, o *proto.Out) []string {
 	outs := make([]string, len(c.Ops))
-	st := &state{tree: urltree.NewURLTree[int](false, 0), codes: map[int]string{}, nextCode: 200, onlyFix: true}
+	st := &state{tree: urltree.NewURLTree[int](false, 0), codes: map[int]string{}, nextCode: 200, onlyFix: true, authOK: true,
+		accounts: map[sharedConfig.AccountID]sharedConfig.Account{}}
 	matched, missed, overlap := 0, 0, false
 	for i, op := range c.Ops {
 		w := strings.Fields(op)
@@ -299,8 +321,10 @@ func exec(c proto.Case, o *proto.Out) []string {
 			if w[0] == "load" {
 				st.glob = st.declaredGlob
 				outs[i] = st.load(eps, o)
+				st.viaProd = true
 				break
 			}
+			st.viaProd = false
 			// the PRODUCTION wiring (YAML load / apply_policies): BuildPolicyData on a PoliciesConfig, which
 			// decides what reaches BuildEndpointPolicyTree
 			st.glob = st.declaredGlob
@@ -318,6 +342,16 @@ func exec(c proto.Case, o *proto.Out) []string {
 				break
 			}
 			outs[i] = st.revert(w[1], o)
+		case w[0] == "auth" && len(w) == 3:
+			if st.pt == nil {
+				outs[i] = "no-tree"
+				break
+			}
+			if !st.authOK {
+				outs[i] = "unsupported"
+				break
+			}
+			outs[i] = st.auth(proto.Dec(w[1]), proto.Dec(w[2]), o)
 		case w[0] == "spoe" && len(w) == 3:
 			if st.pt == nil {
 				outs[i] = "no-tree"
@@ -433,6 +467,54 @@ func (st *state) disp(method, url string, o *proto.Out) string {
 		return "err"
 	}
 	return st.readDispatch(acts, o, "disp")
+}
+
+// auth = a forwarded (not early-answered) request: the credentials that leave the engine in `request_headers`
+// name the authentication remedies that were applied (header x-k-<remedy>).  Through the SPOE handler when the
+// policies were loaded by the production accessor, else through runner.DispatchOnRequest.
+func (st *state) auth(method, url string, o *proto.Out) string {
+	ensureServices()
+	if !st.authInit { // the plugin caches credentials per endpoint for its whole life: one plugin per case
+		svc.Remedies.AuthPlugin = remedies.NewAuthPlugin()
+		st.authInit = true
+	}
+	var acts action.Actions
+	if st.viaProd {
+		acts = ensureProd().send(method, url, "")
+	} else {
+		onReq := lunarMessages.OnRequest{
+			ID: "verif-a", SequenceID: "verif-a", Method: method, Scheme: "http", URL: url, Path: "/",
+			Headers: map[string]string{}, Time: time.Unix(1_700_000_000, 0),
+		}
+		var err error
+		acts, err = runner.DispatchOnRequest(onReq, st.pt,
+			&sharedConfig.PoliciesConfig{Global: st.glob, Accounts: st.accounts}, svc, worker)
+		if err != nil {
+			return "err"
+		}
+	}
+	var keys []string
+	for _, a := range acts {
+		if a.Name != "request_headers" {
+			continue
+		}
+		if hs, ok := a.Value.(string); ok {
+			for _, l := range strings.Split(hs, "\n") {
+				if strings.HasPrefix(l, "x-k-") {
+					if k := strings.SplitN(l, ":", 2); len(k) == 2 {
+						keys = append(keys, strings.TrimSpace(k[1]))
+					}
+				}
+			}
+		}
+	}
+	sort.Strings(keys)
+	if len(keys) > 0 {
+		o.Count("auth-credentials")
+	} else {
+		o.Count("auth-none")
+	}
+	return "keys=" + fmtNames(keys)
 }
 
 // readDispatch decodes what DispatchOnRequest answered: which fixed-response remedy produced the early
